@@ -5,7 +5,22 @@
 #include "tlv.h"
 #include "fast_tlv.h"
 #include "spec/tlv.h"
+#if defined(H_readFirstTlv) || defined(H_encodeAsNested)
+#ifdef TLV_MEMREAD_ARITH
+#define FTLV_MEMREAD_ARITH
+#endif
+#include "contracts/fast_tlv_hdr.h"      /* KSI_FTLV_memRead is replaced by its contract (enforced by C09.memRead) */
+#endif
 #include "tlv.c"
+#ifdef H_encodeAsNested
+#include "env/ghost_tlvlist.h"
+#define TLV_BUILD_GHOST
+#endif
+#include "contracts/tlv_parse.h"
+#if defined(H_serializeNested) || defined(H_readFirstTlv) || defined(H_parseBlob2) || defined(H_encodeAsNested)
+#include "env/ghost_tlvlist.h"
+#include "contracts/tlv_nested.h"
+#endif
 #include "contracts/tlv_serialize.h"
 
 #ifdef H_serializeTlv
@@ -19,5 +34,88 @@ void harness(void) {
 	if (res == KSI_OK && g_sp_len == 0xffff && TLV_WANTS_HDR(opt)) REACH("payload 0xffff with header");
 	if (res == KSI_BUFFER_OVERFLOW) REACH("does not fit");
 	if (res != KSI_OK && res != KSI_BUFFER_OVERFLOW) REACH("payload error passed on");
+}
+#endif
+
+#ifdef H_serializePayload
+void harness(void) {
+	const KSI_TLV *tlv = nondet_ptr(); unsigned char *buf = nondet_ptr(); size_t buf_size = nondet_size(); size_t *buf_len = nondet_ptr();
+	int res = serializePayload(tlv, buf, buf_size, buf_len);
+	if (res == KSI_OK) REACH("payload serialized"); else REACH("payload refused");
+}
+#endif
+
+#ifdef H_serializeRaw
+void harness(void) {
+	const KSI_TLV *tlv = nondet_ptr(); unsigned char *buf = nondet_ptr(); size_t buf_size = nondet_size(); size_t *buf_len = nondet_ptr();
+	int res = serializeRaw(tlv, buf, buf_size, buf_len);
+	if (res == KSI_OK) REACH("raw payload copied"); else REACH("buffer too small");
+	if (res == KSI_OK && buf_size > 3 && g_tlv_k == 2) REACH("third octet");
+}
+#endif
+
+#ifdef H_serializeNested
+void harness(void) {
+	struct KSI_TLV_st parent; unsigned char *buf = nondet_ptr(); size_t buf_size = nondet_size(); size_t *buf_len = nondet_ptr(); int res;
+	memset(&parent, 0, sizeof(parent));
+	nl_setup();
+	parent.nested = nondet_bool() ? &g_nl_list : NULL;
+	parent.tag = nondet_uint();
+	res = serializeNested(&parent, buf, buf_size, buf_len);
+	if (res == KSI_OK) REACH("children serialized"); else REACH("a child failed");
+	if (res == KSI_OK && g_nl_len == 0 && parent.nested != NULL) REACH("empty list");
+	if (res == KSI_OK && g_nl_len > 5 && g_nl_w == 3) REACH("long list");
+}
+#endif
+
+#ifdef H_writeBytes
+void harness(void) {
+	const KSI_TLV *tlv = nondet_ptr(); unsigned char *buf = nondet_ptr(); size_t buf_size = nondet_size(); size_t *buf_len = nondet_ptr();
+	int opt = nondet_int();
+	int res = KSI_TLV_writeBytes(tlv, buf, buf_size, buf_len, opt);
+	if (res == KSI_OK) REACH("written"); else REACH("refused");
+	if (res == KSI_OK && (opt & KSI_TLV_OPT_NO_MOVE) == 0 && g_st_len > 4 && g_tlv_k == 3 && buf_size > g_st_len + 9) REACH("moved to the front");
+	if (res == KSI_OK && (opt & KSI_TLV_OPT_NO_MOVE) != 0 && g_st_len > 4) REACH("left at the end");
+}
+#endif
+
+#ifdef H_readFirstTlv
+void harness(void) {
+	int ctxobj; unsigned char *data = nondet_ptr(); size_t data_length = nondet_size(); KSI_TLV *out = NULL; KSI_TLV **tlv = &out;
+	size_t r = readFirstTlv((KSI_CTX *)&ctxobj, data, data_length, tlv);
+#ifdef TLV_OUT_BY_HARNESS
+	if (r != 0) free(out);       /* the caller owns the result; everything else must have been released (--memory-leak-check) */
+#endif
+	if (r != 0) REACH("element read"); else REACH("nothing read");
+	if (r == 0 && data_length > 4) REACH("refused: truncated");
+}
+#endif
+
+#ifdef H_parseBlob2
+void harness(void) {
+	int ctxobj; unsigned char *data = nondet_ptr(); size_t data_length = nondet_size(); KSI_TLV **tlv = nondet_ptr(); int own = nondet_int();
+	int res = KSI_TLV_parseBlob2((KSI_CTX *)&ctxobj, data, data_length, own, tlv);
+	if (res == KSI_OK) REACH("blob accepted");
+	if (res == KSI_INVALID_FORMAT) REACH("blob refused");
+	if (res == KSI_INVALID_ARGUMENT) REACH("too short");
+	if (res == KSI_OK && own) REACH("memory taken over");
+}
+#endif
+
+#ifdef H_encodeAsNested
+void harness(void) {
+	int ctxobj; struct KSI_TLV_st parent; int res; size_t len = nondet_size();
+	memset(&parent, 0, sizeof(parent));
+	parent.ctx = (KSI_CTX *)&ctxobj; parent.tag = nondet_uint();
+	__CPROVER_assume(len <= TLV_MAX_INPUT);
+	parent.datap = malloc(len); __CPROVER_assume(parent.datap != NULL); parent.datap_len = len;
+	g_bl_base = parent.datap; g_bl_len = len; g_bl_live = 0; g_bl_freed = 0; g_bl_off = 0; g_bl_count = 0; g_bl_w = nondet_size(); g_bl_rejected = NULL; g_tlvfree_calls = 0;
+	parent.nested = nondet_bool() ? &g_nl_list : NULL;
+	res = encodeAsNestedTlvs(&parent);
+	if (res == KSI_OK && parent.nested == &g_bl_list) REACH("payload expanded");
+	if (res == KSI_OK && parent.nested == &g_bl_list && g_bl_count > 3) REACH("many children");
+	if (res == KSI_OK && parent.nested == &g_bl_list && g_bl_count == 0) REACH("empty payload, empty list");
+	if (res == KSI_INVALID_FORMAT) REACH("payload does not tile");
+	if (res == KSI_OUT_OF_MEMORY) REACH("allocation failure");
 }
 #endif
